@@ -1,6 +1,8 @@
 package eng
 
 import (
+	"strings"
+	"sort"
 	"fmt"
 	"go/token"
 	"go/types"
@@ -41,6 +43,11 @@ func (e *Engine) loopHead(st *State, fr *Frame, li *loopInfo) (stop bool) {
 			fr: fr, pos: li.pos, iter: iter, pkg: fr.fn.Pkg}
 	}
 	if back {
+		// the lock state at the end of an iteration must be the one the loop was entered with (the loop
+		// head assumes it for every iteration)
+		if lk := lockSummary(st); lk != lc.locks {
+			e.oblige(st, "lockset@loop", fmt.Sprintf("loop%d", li.ord), -1, False, "an iteration ends holding the same mutexes as the loop was entered with (entered: "+lc.locks+"; now: "+lk+")", li.pos)
+		}
 		next := Add(lc.iter, One)
 		ctx := mk(next)
 		ctx.goal = true
@@ -111,7 +118,7 @@ func (e *Engine) loopHead(st *State, fr *Frame, li *loopInfo) (stop bool) {
 	}
 	iter := e.fresh("iter", IntS)
 	st.assume(Ge(iter, Zero))
-	lc = &loopCtx{iter: iter, ord: li.ord}
+	lc = &loopCtx{iter: iter, ord: li.ord, locks: lockSummary(st)}
 	fr.loops[li.head] = lc
 	ctx := mk(iter)
 	for _, u := range ls.Unfolds {
@@ -312,4 +319,15 @@ func (e *Engine) applyLemma(st *State, ctx *specCtx, ap Expr, where string, pos 
 	for _, en := range spec.Ensures {
 		st.assume(Implies(guard, sub.evalBool(en.E)))
 	}
+}
+
+func lockSummary(st *State) string {
+	var ks []string
+	for k, m := range st.locks {
+		if m != "" {
+			ks = append(ks, k+"="+m)
+		}
+	}
+	sort.Strings(ks)
+	return strings.Join(ks, ",")
 }
